@@ -155,7 +155,13 @@ impl Write for Scripted {
         let all: Vec<u8> = bufs.iter().flat_map(|b| b.iter().copied()).collect();
         self.write(&all)
     }
+    /// flush is scripted too (succeed / fail): code that starts flushing meets a writer whose flush can fail
     fn flush(&mut self) -> io::Result<()> {
+        let mut st = self.0.lock().unwrap();
+        let c = if st.writes.len() < st.max_points { st.script.choose(2) } else { 0 };
+        if c == 1 {
+            return Err(io::Error::new(ErrorKind::Other, "injected flush failure"));
+        }
         Ok(())
     }
 }
@@ -258,6 +264,12 @@ fn judge(
     let fatal_fault = writes.map(|w| w.iter().any(|r| r.is_fatal_fault())).unwrap_or(false);
     let non_default = fgi != 0 || bgi != 0;
     let is_ok = result.is_ok();
+    // an error although every inner write was accepted in full: nothing the statement talks about can have failed
+    if let (Some(w), Err(k)) = (writes, result) {
+        if !w.iter().any(|r| r.is_fault()) {
+            return v("error-without-a-failing-write", format!("returned Err({k:?}) although the writer accepted every write in full (output {})", show(accepted)));
+        }
+    }
 
     // ---- parse what the writer accepted
     // (the data tokens contain no ESC, so the output splits by bytes into leading sequences, one run of data bytes -
